@@ -541,6 +541,9 @@ def rule_ack_sites(program, ctx, prop=P, rid="C03.acksites"):
     for c in walk_no_nested(sc):
         if isinstance(c, ast.List) and c.elts and isinstance(c.elts[0], ast.Constant) and c.elts[0].value == "OK":
             n += 1
+            if len(c.elts) > 2 and isinstance(c.elts[2], ast.Constant) and c.elts[2].value is False:
+                ctx.ok(rid, c, "OK … false: a refusal acknowledges nothing")
+                continue
             atoms = [ast.unparse(e) for e, pol in guard_atoms(c, stop=sc) if pol]
             if any(a.replace(" ", "") in ("command=='EVENT'", "'EVENT'==command") for a in atoms):
                 ctx.ok(rid, c, "OK frame in the EVENT branch")
